@@ -9,11 +9,9 @@ parameters `Url.Env`: the IP-literal check on a bracketed host, the NFKC check o
 authority, and `str.lower`.
 
 What is proved covers every URL whose authority is ASCII — reg-names, IPv4, bracketed IPv6 with and
-without zone, IPvFuture, any port spelling, empty user-info, any path and query — with one
-exception that the current code really gets wrong and which the hypothesis `HostShape` names: an
-IPvFuture literal without `:` but with `[` inside (`gemini://[v1.a[b]/`) loses its brackets and no
-longer parses (`ipvfuture_gap`).  Non-ASCII host names are outside the theorems (correspondence only):
-the full statements stay below as `…_statement`. -/
+without zone, IPvFuture with anything between the brackets, text before the bracket, any port
+spelling, empty user-info, any path and query.  Non-ASCII host names are outside the theorems
+(correspondence only): the full statements stay below as `…_statement`. -/
 
 namespace NauyacaVerif.C19
 open Url
@@ -29,9 +27,6 @@ structure AcceptedAscii (env : Env) (u : Str) (P : Parsed) : Prop where
   split : ∃ sp, urlsplit env u = .ok sp ∧ ∀ c ∈ sp.netloc, c.toNat < 128
   parsed : parseUrl env u = .ok P
 
-/-- the reported host is an IP literal with `:` (stays bracketed) or contains no `[` -/
-def HostShape (P : Parsed) : Prop := ':' ∈ P.host ∨ '[' ∉ P.host
-
 /-- `normalize_url` -/
 def normalize (env : Env) (u : Str) : Except Err Str :=
   match parseUrl env u with
@@ -42,35 +37,34 @@ theorem defaultPort_tie : (1965 : Nat) = Gen.defaultPort := by decide
 theorem maxRequest_tie : (1024 : Nat) = Gen.maxRequest := by decide
 
 /-- core: the normalised form parses to the very same record -/
-theorem norm_fixed (env : Env) (he : EnvOK env) (u : Str) (P : Parsed) (ha : AcceptedAscii env u P) (hs : HostShape P) :
+theorem norm_fixed (env : Env) (he : EnvOK env) (u : Str) (P : Parsed) (ha : AcceptedAscii env u P) :
     parseUrl env P.normalized = .ok P := by
   obtain ⟨sp, hsp, hascii⟩ := ha.split
-  exact norm_idem_ascii env he.lower he.ip u P sp hsp hascii hs ha.parsed
+  exact norm_idem_ascii env he.lower he.ip u P sp hsp hascii ha.parsed
 
 /-- the normalised form of an accepted URL is accepted -/
-theorem norm_accepted_partial (env : Env) (he : EnvOK env) (u : Str) (P : Parsed) (ha : AcceptedAscii env u P)
-    (hs : HostShape P) : ∃ Q, parseUrl env P.normalized = .ok Q :=
-  ⟨P, norm_fixed env he u P ha hs⟩
+theorem norm_accepted_partial (env : Env) (he : EnvOK env) (u : Str) (P : Parsed) (ha : AcceptedAscii env u P) : ∃ Q, parseUrl env P.normalized = .ok Q :=
+  ⟨P, norm_fixed env he u P ha⟩
 
 /-- … and denotes the same host, port, path and query -/
 theorem norm_same_partial (env : Env) (he : EnvOK env) (u : Str) (P Q : Parsed) (ha : AcceptedAscii env u P)
-    (hs : HostShape P) (hQ : parseUrl env P.normalized = .ok Q) :
+    (hQ : parseUrl env P.normalized = .ok Q) :
     Q.host = P.host ∧ Q.port = P.port ∧ Q.path = P.path ∧ Q.query = P.query := by
-  rw [norm_fixed env he u P ha hs] at hQ
+  rw [norm_fixed env he u P ha] at hQ
   injection hQ with hQ
   subst hQ
   exact ⟨rfl, rfl, rfl, rfl⟩
 
 /-- … and normalising it again changes nothing -/
 theorem norm_idem_partial (env : Env) (he : EnvOK env) (u n : Str) (P : Parsed) (ha : AcceptedAscii env u P)
-    (hs : HostShape P) (hn : normalize env u = .ok n) : normalize env n = .ok n := by
+    (hn : normalize env u = .ok n) : normalize env n = .ok n := by
   have e : n = P.normalized := by
     unfold normalize at hn
     rw [ha.parsed] at hn
     injection hn with hn
     exact hn.symm
   unfold normalize
-  rw [e, norm_fixed env he u P ha hs]
+  rw [e, norm_fixed env he u P ha]
 
 /-- the un-bracketed ASCII case as first proved in the design round -/
 theorem norm_idem_plain_partial (env : Env) (hl : AsciiLower env) (u : Str) (P : Parsed) (sp : Split)
@@ -79,14 +73,13 @@ theorem norm_idem_plain_partial (env : Env) (hl : AsciiLower env) (u : Str) (P :
   norm_idem_plain env hl u P sp hsp hascii hnb h
 
 /-- the request line the client writes (`normalized` + CRLF, after `validate_url` on the caller's
-    string) is read by the server — whatever follows it on the connection — as exactly the caller's
-    components, provided the normalised string still fits `MAX_REQUEST_SIZE` -/
+    string and on the normalised one) is read by the server — whatever follows it on the connection —
+    as exactly the caller's components -/
 theorem wire_roundtrip_partial (env : Env) (he : EnvOK env) (u w extra : Str) (P : Parsed) (ha : AcceptedAscii env u P)
-    (hs : HostShape P) (hw : clientWire env Gen.maxRequest u = .ok w)
-    (hfit : utf8Len P.normalized + 2 ≤ Gen.maxRequest) :
+    (hw : clientWire env Gen.maxRequest u = .ok w) :
     w = P.normalized ++ crlf ∧ serverParse env Gen.maxRequest (w ++ extra) = .ok P := by
   obtain ⟨sp, hsp, hascii⟩ := ha.split
-  exact wire_roundtrip env he.lower he.ip Gen.maxRequest u w extra P sp hsp hascii ha.parsed hs hw hfit
+  exact wire_roundtrip env he.lower he.ip Gen.maxRequest u w extra P sp hsp hascii ha.parsed hw
 
 /-- path and query of every accepted URL (any authority, any environment) are in canonical shape:
     the path starts with `/`, neither contains a delimiter that would end it, nor TAB/CR/LF -/
@@ -112,7 +105,7 @@ def wire_roundtrip_statement : Prop :=
   ∀ env u w P, LowerContract env → IpStable env → parseUrl env u = .ok P → clientWire env Gen.maxRequest u = .ok w →
     serverParse env Gen.maxRequest w = .ok P
 
-/-! ## non-vacuity and the two places where the current code falls short -/
+/-! ## non-vacuity -/
 
 def asciiEnv : Env := ⟨fun _ => true, fun _ => true, fun s => s.map lowerAscii⟩
 theorem asciiEnv_ok : EnvOK asciiEnv := ⟨fun _ => rfl, fun _ _ => rfl⟩
@@ -123,7 +116,6 @@ def v6P : Parsed := ⟨[':',':','1'], 1965, ['/','x'], [], v6n⟩
 
 example : parseUrl asciiEnv v6 = .ok v6P := by decide
 example : AcceptedAscii asciiEnv v6 v6P := ⟨⟨⟨gemini, ['[',':',':','1',']',':','1','9','6','5'], ['/','x'], [], []⟩, by decide, by decide⟩, by decide⟩
-example : HostShape v6P := Or.inl (by decide)
 example : parseUrl asciiEnv v6n = .ok v6P := by decide
 example : normalize asciiEnv v6n = .ok v6n := by decide
 
@@ -131,19 +123,20 @@ def plain : Str := ['g','e','m','i','n','i',':','/','/','E','x','.','o','r','g',
 example : (parseUrl asciiEnv plain).toOption.map (fun P => (P.host, P.port, P.path, P.query)) =
     some (['e','x','.','o','r','g'], 70, ['/'], ['a','?','b']) := by decide
 
-/-- the IPvFuture corner: accepted, but its normal form is rejected — `HostShape` is a real restriction -/
+/-- IPvFuture literals keep their brackets, whatever they contain; so does a literal with text before it -/
 def fut : Str := ['g','e','m','i','n','i',':','/','/','[','v','1','.','a','[','b',']','/']
-def futN : Str := ['g','e','m','i','n','i',':','/','/','v','1','.','a','[','b','/']
-theorem ipvfuture_gap :
-    parseUrl asciiEnv fut = .ok ⟨['v','1','.','a','[','b'], 1965, ['/'], [], futN⟩ ∧
-    parseUrl asciiEnv futN = .error .invalidIPv6 := by decide
+example : parseUrl asciiEnv fut = .ok ⟨['v','1','.','a','[','b'], 1965, ['/'], [], fut⟩ := by decide
+def junk : Str := ['g','e','m','i','n','i',':','/','/','x','[',':',':','1',']','/']
+def junkN : Str := ['g','e','m','i','n','i',':','/','/','[',':',':','1',']','/']
+example : parseUrl asciiEnv junk = .ok ⟨[':',':','1'], 1965, ['/'], [], junkN⟩ := by decide
+example : parseUrl asciiEnv junkN = .ok ⟨[':',':','1'], 1965, ['/'], [], junkN⟩ := by decide
 
-/-- the length corner: the client checks the caller's string, the server the normalised one, which is
-    one character longer when the path was empty (shown with the limit scaled down to 14) -/
+/-- the length corner (limit scaled down to 14): the normalised form of `gemini://h?q` is one character
+    longer than the caller's string; the client refuses it instead of sending a line the server must refuse -/
 def short : Str := ['g','e','m','i','n','i',':','/','/','h','?','q']
 def shortN : Str := ['g','e','m','i','n','i',':','/','/','h','/','?','q']
-theorem length_gap :
-    clientWire asciiEnv 14 short = .ok (shortN ++ crlf) ∧ serverParse asciiEnv 14 (shortN ++ crlf) = .error .tooLong := by decide
+example : clientWire asciiEnv 14 short = .error .tooLong := by decide
+example : clientWire asciiEnv 15 short = .ok (shortN ++ crlf) := by decide
 example : serverParse asciiEnv 15 (shortN ++ crlf) = .ok ⟨['h'], 1965, ['/'], ['q'], shortN⟩ := by decide
 
 end NauyacaVerif.C19
